@@ -196,7 +196,7 @@ func (r mpReader) name() string { return "UDPPeer" }
 
 func TestC12_DatagramBoundaries(t *testing.T) {
 	rec := evid.For("C12")
-	rec.SetRule("rapid: (A) PacketConn and multicast.UDPPeer on 127.0.0.1: bursts of 1..80 datagrams (consumed one read at a time from top level, or by a chain of reads re-armed from each completion with a fresh buffer, which crosses the dispatch limit) of 1..1372 bytes (and up to 60000) from 1..3 raw senders, reads with buffers smaller/equal/larger than the datagram, issued before (deferred) or after (inline) arrival; in a third of the rounds with a read pending, a second object of the same IO completes earlier in the same poll batch and takes the datagram with the blocking API, so that the pending read is woken for nothing, has to wait again and must complete with the next datagram; writes to raw receivers, singly or as a chain of 34..80 writes re-issued from their completions with varying destinations; oracle: every datagram completes exactly one read with n=min(len,buf), identical bytes, the sender's ip:port (getsockname of the raw sender), per-sender order; every write is received exactly once with the caller's bytes; (B) UDPPeer bind forms {'', ':0', ':p', ifaddr:p, 127.0.0.1:p, 224.0.x.y:p}: LocalAddr()==getsockname; (C) membership histories on eth0: Join/JoinOn/JoinSource/Leave/LeaveSource/BlockSource/UnblockSource/SetLoop/SetTTL/SetOutboundIPv4/SetAsyncReadBuffer interleaved with multicast datagrams to joined and non-joined groups from a raw sender (source = interface address) while harness witness sockets keep every group joined on the host; a membership model (any-source with blocked set / include set) predicts delivered or not; non-delivery is decided by a unicast fence datagram that must be the next one read; getters TTL/Loop/Outbound/LocalAddr compared with getsockopt/getsockname after every call; non-trivial = >=2 membership changes with traffic after each, or a truncating read, or a buffer swap; distinct = hash of the history")
+	rec.SetRule("rapid: (A) PacketConn and multicast.UDPPeer on 127.0.0.1: bursts of 1..80 datagrams (consumed one read at a time from top level, or by a chain of reads re-armed from each completion with a fresh buffer, which crosses the dispatch limit) of 1..1372 bytes (and up to 60000) from 1..3 raw senders, reads with buffers smaller/equal/larger than the datagram, issued before (deferred) or after (inline) arrival; in a third of the rounds with a read pending, a second object of the same IO completes earlier in the same poll batch and takes the datagram with the blocking API, so that the pending read is woken for nothing, has to wait again and must complete with the next datagram; writes to raw receivers, singly or as a chain of 34..80 writes re-issued from their completions with varying destinations; oracle: every datagram completes exactly one read with n=min(len,buf), identical bytes, the sender's ip:port (getsockname of the raw sender), per-sender order; every write is received exactly once with the caller's bytes; (B) UDPPeer bind forms {'', ':0', ':p', ifaddr:p, 127.0.0.1:p, 224.0.x.y:p}: LocalAddr()==getsockname; (C) membership histories on eth0, the peer bound to a reserved port or (a quarter of the cases) to a kernel-chosen one ('', ':0', '0.0.0.0:0'): Join/JoinOn/JoinSource/Leave/LeaveSource/BlockSource/UnblockSource/SetLoop/SetTTL/SetOutboundIPv4/SetAsyncReadBuffer interleaved with multicast datagrams to joined and non-joined groups from a raw sender (source = interface address) while harness witness sockets keep every group joined on the host; a membership model (any-source with blocked set / include set) predicts delivered or not; non-delivery is decided by a unicast fence datagram that must be the next one read; getters TTL/Loop/Outbound/LocalAddr compared with getsockopt/getsockname after every call; non-trivial = >=2 membership changes with traffic after each, or a truncating read, or a buffer swap; distinct = hash of the history")
 	rec.Assume("loopback delivery keeps per-sender order; all local multicast senders have the interface address as source, a second source is an address that never sends (10.9.9.9); TTL 1, nothing leaves the sandbox")
 	vt.Check(t, 300, func(rt *rapid.T) {
 		ioc, err := sonic.NewIO()
@@ -815,17 +815,30 @@ func TestC12_MembershipHistories(t *testing.T) {
 			rt.Fatalf("INFRA: %v", err)
 		}
 		defer ioc.Close()
-		// a port nobody else can be handed (see sysx.ClaimUDPPort); the port-0 bind form is covered by BindFormsAndGetters
+		// a port nobody else can be handed (see sysx.ClaimUDPPort), or - in a quarter of the cases - the port-0 bind forms,
+		// where the kernel picks the port: a port picked by the kernel may be shared with a stranger's UDPPeer
+		// (SO_REUSEPORT), which is checked right away here and again before any mismatch is reported
 		claimed, release, err := sysx.ClaimUDPPort()
 		if err != nil {
 			rt.Fatalf("INFRA: %v", err)
 		}
 		defer release()
-		mp, err := multicast.NewUDPPeer(ioc, "udp", fmt.Sprintf(":%d", claimed))
-		if err != nil {
-			rt.Fatalf("INFRA: NewUDPPeer: %v", err)
+		bindForm := fmt.Sprintf(":%d", claimed)
+		if rapid.IntRange(0, 3).Draw(rt, "kernelPort") == 0 {
+			bindForm = rapid.SampledFrom([]string{"", ":0", "0.0.0.0:0"}).Draw(rt, "bindForm")
 		}
-		defer mp.Close()
+		mp, err := multicast.NewUDPPeer(ioc, "udp", bindForm)
+		if err != nil {
+			rt.Fatalf("INFRA: NewUDPPeer(%q): %v", bindForm, err)
+		}
+		if _, p0, _ := sysx.LocalAddr4(mp.NextLayer().RawFd()); bindForm != fmt.Sprintf(":%d", claimed) && socketsOnPort(p0) != 1 {
+			_ = mp.Close()
+			bindForm = fmt.Sprintf(":%d", claimed)
+			if mp, err = multicast.NewUDPPeer(ioc, "udp", bindForm); err != nil {
+				rt.Fatalf("INFRA: NewUDPPeer(%q): %v", bindForm, err)
+			}
+		}
+		defer func() { _ = mp.Close() }()
 		pfd := mp.NextLayer().RawFd()
 		_, port, _ := sysx.LocalAddr4(pfd)
 		g0 := rapid.IntRange(2, 200).Draw(rt, "g")
@@ -1084,7 +1097,11 @@ func TestC12_MembershipHistories(t *testing.T) {
 				}
 				return strings.Join(s, " ")
 			}
-			if n := socketsOnPort(port); n != 1+len(wits) && (len(inbox) != len(want)) {
+			mismatch := len(inbox) != len(want)
+			for i := 0; i < len(want) && !mismatch; i++ {
+				mismatch = inbox[i].n != want[i].n || inbox[i].from != want[i].from || !bytes.Equal(inbox[i].data, want[i].data)
+			}
+			if n := socketsOnPort(port); n != 1+len(wits) && mismatch {
 				rt.Fatalf("INFRA: %d sockets of this host are bound to the test port %d, expected %d (another process received the same ephemeral port): the case cannot be judged", n, port, 1+len(wits))
 			}
 			if len(inbox) != len(want) {
@@ -1105,7 +1122,10 @@ func TestC12_MembershipHistories(t *testing.T) {
 		if swaps > 0 {
 			cls = append(cls, "buffer-swap")
 		}
-		rec.Case("C|"+strings.Join(trace, ","), changes >= 2 || swaps > 0, cls, map[string]any{"history": trace})
+		if bindForm != fmt.Sprintf(":%d", claimed) {
+			cls = append(cls, "C:kernel-chosen-port")
+		}
+		rec.Case("C|"+bindForm+"|"+strings.Join(trace, ","), changes >= 2 || swaps > 0, cls, map[string]any{"bind": bindForm, "history": trace})
 	})
 }
 
